@@ -413,3 +413,28 @@ def merge_pairing(ctx, rid, only=None):
         for bb, srcs in ws:
             wrong = srcs - {f}
             ctx.require(rid, not wrong, where(rc, bb), "global.%s is assigned from the same-named option (found %s)" % (f, sorted(srcs)), ["config::read_cnf", "merge-crosswired", f])
+    include_rule(ctx, rid, only)
+
+
+def include_rule(ctx, rid, only=None):
+    """the include merge EVALUATED on virtual configuration trees (include_model): sections merged once each, later-included
+    [global] options override earlier ones, nothing is lost, cycles/diamonds/repeated spellings terminate with each file read once.
+    `only` restricts the comparison to some global options (the sharing properties)."""
+    from . import include_model as im
+    tab = im.include_table(ctx.prog)
+    rc = im.reader(ctx.prog)
+    loc = "%s:%s" % (rc.file, rc.line) if rc is not None else "acmed/src/config.rs"
+    if tab is None:
+        ctx.ok(rid, "include merge NOT evaluable on this tree (structural rules only)")
+        return
+    for name, got, want in tab:
+        if got and got[0] == "Err":
+            if only is None:
+                ctx.fail(rid, loc, "configuration tree `%s`: %s" % (name, got[1]), ["config::read_cnf", "include-evaluated", name, "refused"])
+            continue
+        diffs = [d_ for d_ in im.differences(got, want) if only is None or any(d_.startswith("global option %s:" % o) for o in only)]
+        for d_ in diffs:
+            kind = d_.split(":", 1)[0].replace(" ", "-")
+            ctx.fail(rid, loc, "configuration tree `%s`: %s" % (name, d_), ["config::read_cnf", "include-evaluated", name, kind])
+        if not diffs:
+            ctx.ok(rid, "configuration tree `%s` evaluated: sections %s, %d global options, as expected" % (name, {k: len(v) for k, v in want[0].items()}.get("endpoint"), len(want[1])))
